@@ -205,7 +205,7 @@ def unjson(x):
 # worker pool
 
 
-def _worker_init(repo, hashseed):
+def _worker_init(repo, pin):
     os.environ["VERIF_REPO"] = repo
     global REPO
     REPO = repo
@@ -213,11 +213,15 @@ def _worker_init(repo, hashseed):
     import atexit
 
     atexit.register(cleanup_scratch)
+    if os.environ.get("VERIF_DEBUG"):
+        import faulthandler
+
+        faulthandler.dump_traceback_later(25, repeat=False)
     # one CPU per worker: baton hand-offs between the threads of one worker then stay on one core
     try:
         ident = multiprocessing.current_process()._identity
         cpus = sorted(os.sched_getaffinity(0))
-        if ident and len(cpus) > 1:
+        if pin and ident and len(cpus) > 1:
             os.sched_setaffinity(0, {cpus[(ident[0] - 1) % len(cpus)]})
     except Exception:
         pass
@@ -248,7 +252,8 @@ def run_jobs(modname, jobs, nproc=None):
             total.merge(_worker_run((modname, j)))
         return total
     ctx = multiprocessing.get_context("fork")
-    with ctx.Pool(min(nproc, len(jobs)), initializer=_worker_init, initargs=(REPO, None)) as pool:
+    pin = bool(getattr(__import__(modname, fromlist=["x"]), "PIN_CPUS", False))
+    with ctx.Pool(min(nproc, len(jobs)), initializer=_worker_init, initargs=(REPO, pin)) as pool:
         for st in pool.imap_unordered(_worker_run, [(modname, j) for j in jobs]):
             total.merge(st)
     return total
